@@ -1439,9 +1439,9 @@ pub fn gen_request(rng: &mut ChaCha20Rng, o: GenOpts) -> Request {
 
     // version
     let vroll = rng.gen_range(0..100);
-    r.version = if vroll < 60 {
+    r.version = if vroll < 55 {
         None
-    } else if vroll < 90 || !o.hostile {
+    } else if vroll < 82 || !o.hostile {
         // an explicit version that should be acceptable for the epoch
         let mut c = vec![];
         if epoch >= Epoch::Sapling {
